@@ -633,6 +633,7 @@ def _inline_procedures(tree: ast.Module) -> None:
         if depth < 3 and any(isinstance(x, ast.Name) and x.id.startswith("__inl") for x in ast.walk(fn)):
             pass
 
+    inlined_any: set[str] = set()
     for cls in [n for n in ast.walk(tree) if isinstance(n, ast.ClassDef)]:
         helpers = {n.name: n for n in cls.body if isinstance(n, ast.FunctionDef)}
         bases = [dotted(b) or "" for b in cls.bases]
@@ -656,6 +657,13 @@ def _inline_procedures(tree: ast.Module) -> None:
                 expand(fn, helpers, fn.args.args[0].arg, 0)
                 if ast.dump(fn) == before:
                     break
+                inlined_any.add(cls.name)
+    # a private helper whose every call was replaced by its body is no longer part of the program in
+    # normal form: drop its definition (otherwise rules would see its statements twice)
+    if inlined_any:
+        refs = {x.attr for x in ast.walk(tree) if isinstance(x, ast.Attribute)} | {x.id for x in ast.walk(tree) if isinstance(x, ast.Name)}
+        for cls in [n for n in ast.walk(tree) if isinstance(n, ast.ClassDef) and n.name in inlined_any]:
+            cls.body[:] = [n for n in cls.body if not (isinstance(n, ast.FunctionDef) and n.name.startswith("_") and not n.name.startswith("__") and n.name not in refs)]
 
 
 INLINE_PROCEDURES = True
